@@ -96,7 +96,7 @@ type Server struct {
 	Malformed  []string // monitor: malformed frames received from rend
 	NRequests  int
 	OnRequest  func(s *Server, r *Request) // standing monitors hook
-	WriteCount map[string]int               // number of successful writes per key
+	WriteCount map[string]int              // number of successful writes per key
 }
 
 func New(name string, now func() int64) *Server {
